@@ -47,7 +47,13 @@ var UserNames = []string{"alice", "bob", "carol", "d/e f+g%2Fh", "alice ", "Alic
 // (white space at either end, case, NUL, a Unicode look-alike of the hyphen, the trimmed
 // forms of 4 and 5): none of them is the same password as its neighbour.
 var Passwords = []string{"pw-zero", "pw-one", "pw-two", "", " pw lead", "pw trail ",
-	"pw-zero ", " pw-zero", "pw-zero\n", "PW-ZERO", "pw-zero\x00", "pw\u2010zero", "pw lead", "pw trail", "\tpw-one\r\n"}
+	"pw-zero ", " pw-zero", "pw-zero\n", "PW-ZERO", "pw-zero\x00", "pw\u2010zero", "pw lead", "pw trail", "\tpw-one\r\n",
+	long72 + "tail-one", long72 + "tail-two", long72}
+
+// long72 is 72 bytes long - the longest password bcrypt hashes.  Passwords 15 and 16 are longer and share
+// it as their beginning (a server may refuse to store them; if it stores one, only that very string is the
+// user's password), 17 is the 72-byte string itself.  They have no entry in LowCostHashes.
+const long72 = "Lq7-Lq7-Lq7-Lq7-Lq7-Lq7-Lq7-Lq7-Lq7-Lq7-Lq7-Lq7-Lq7-Lq7-Lq7-Lq7-Lq7-Lq7-"
 
 // NearMissPasswords lists, for a password index, the indices of its near-misses.
 func NearMissPasswords(pw int) []int {
@@ -68,6 +74,12 @@ func NearMissPasswords(pw int) []int {
 		return []int{5}
 	case 14:
 		return []int{1}
+	case 15:
+		return []int{16, 17}
+	case 16:
+		return []int{15, 17}
+	case 17:
+		return []int{15, 16}
 	}
 	return nil
 }
